@@ -968,4 +968,42 @@ def _replay_admission(ob):
     return {"reproduced": p.returncode == 1, "detail": (p.stdout + p.stderr)[-3000:], "script": ADMISSION_REPLAY_SCRIPT}
 
 
-REPLAYS = [("plumbing.call-admission*", _replay_admission), ("plumbing.gather*", _replay_gather), ("plumbing.Plan._call*", _replay_gather), ("argnodes.*", _replay_gather), ("gather.*", _replay_gather)]
+UNPACK_SCRIPT = """
+import sys
+import uberjob
+bad = []
+fams = {"distinct": lambda i: ("item", i), "falsy": lambda i: (None, (), "", None, 0.0, None, [])[i % 7]}
+for fam, item in fams.items():
+    for n in range(1, 4):          # with length 0 nothing is requested from the unpack call, so it does not run at all
+        for m in (n - 1, n, n + 1, n + 2):
+            items = [item(i) for i in range(m)]
+            for mk, what in ((list, "list"), (tuple, "tuple"), (iter, "iterator"), (lambda xs: (x for x in xs), "generator")):
+                plan = uberjob.Plan()
+                src = plan.call(lambda: mk(list(items)))
+                parts = plan.unpack(src, n)
+                try:
+                    got = ("ret", uberjob.run(plan, output=list(parts), progress=None))
+                except uberjob.CallError as e:
+                    got = ("raise", type(e.__cause__).__name__)
+                try:
+                    want = ("ret", list(tuple(items)) if len(items) == n else None)
+                    if want[1] is None: want = ("raise", "ValueError")
+                except Exception: pass
+                ok = got == want if got[0] == "raise" or want[0] == "raise" else (len(got[1]) == n and all(a is b or a == b for a, b in zip(got[1], want[1])))
+                if not ok: bad.append((fam, what, n, m, got, want))
+for b in bad[:5]: print("plan.unpack(%s items, %s, length %d) on %d item(s): got %r, direct unpacking gives %r" % b)
+sys.exit(1 if bad else 0)
+"""
+
+
+def _replay_unpack(ob):
+    import os
+
+    from ujvc.units import run_native_p
+    from ujvc.z3env import REPO_SRC
+
+    p = run_native_p(["/venv/bin/python", "-c", UNPACK_SCRIPT], env=dict(os.environ, PYTHONPATH=REPO_SRC), timeout=300)
+    return {"reproduced": p.returncode == 1, "detail": (p.stdout + p.stderr)[-2000:], "script": UNPACK_SCRIPT}
+
+
+REPLAYS = [("plumbing.unpack*", _replay_unpack), ("plumbing.call-admission*", _replay_admission), ("plumbing.gather*", _replay_gather), ("plumbing.Plan._call*", _replay_gather), ("argnodes.*", _replay_gather), ("gather.*", _replay_gather)]
